@@ -11,6 +11,7 @@ import torch
 
 from vf.common import Obs, sub_seed, HarnessBug
 from vf import interp_ref as ir
+from vf import c15_extra as cx
 
 LEVEL = "exploration"
 TECHNIQUE = ("runtime reference-model monitor: SQuad.cumsum/integrate on generated grids and tensor layouts vs "
@@ -27,24 +28,41 @@ RULE = ("cases = seeded samples over method x bc_type x grid kind x nx in [2,40]
         "method/bc; non-trivial = y has at least two distinct non-zero values along the integrated axis, every "
         "cumsum/integrate call of the case returned, and the value oracle was evaluated for every named axis")
 RULE += ('; group big: stacks of 10^4..10^5 values, integrated axis anywhere')
+RULE += ('; group mixdtype: samples of another dtype than the sample positions (float32 / float64 / int64 / int32), result = integral of the '
+         'exact sample values in the promoted dtype')
+RULE += ('; how the method is specified (every rand case draws one spelling: keyword / positional name, upper / title / alternating case, '
+         'implementation class, and for the documented default cspline also omitted / None, each with the option set of the case; group '
+         'method_spec: one request written in every spelling, compared with the reference of the REQUESTED boundary condition and with each other)')
 MIN_NONTRIVIAL = {"quick": 900, "thorough": 9000}
 ASSUMPTIONS = ["sample positions strictly increasing, 1-D, never requiring grad; x in [-3, 6], range 0.5-4",
                "adjacent spacing ratio <= e^3 (clustered), total max/min spacing <= 1e3",
                "y ~ N(0,1) entries (plus polynomial samples with coefficients in [-2,2]); periodic bc gets y[0]==y[-1] along the axis",
                "cspline needs nx >= 2 (not-a-knot on 2 / 3 points = straight line / parabola, scipy's convention)",
                "value tolerance: 2e3*eps*G*range*max|y| (G = 1 trapz, adj_ratio^2 simpson, adj_ratio cspline, incl. last/first spacing for periodic); float32 uses eps32",
-               "y.numel() <= 4096"]
+               "y.numel() <= 4096",
+               "mixdtype: x float64/float32, y of the other floating dtype or int64/int32 with |y| <= 9; tolerance with the eps of x's dtype",
+               "method spellings: only documented behaviour is required - None / omitted means cspline, bc_type defaults to natural, a callable "
+               "(the implementation class) is accepted; a name in upper / mixed case may be refused with RuntimeError, but if accepted it must "
+               "select the named method with the given options"]
 BUDGET = {"quick": {"worker_timeout": 600, "case_timeout": 60}, "thorough": {"worker_timeout": 2400, "case_timeout": 60}}
 REQUIRED_COUNTERS = {
     "quick": {"big_stack_cases": 10, "method_trapz": 200, "method_simpson": 200, "method_cspline": 300, "axis_notlast_negdim": 200,
               "axis_notlast_posdim": 200, "rank1": 60, "rank4": 60, "keepdim_calls": 900, "wrong_length_rejected": 900,
               "spline_mat_built": 300, "simpson_weights_built": 200, "trapz_weights_built": 200, "odd_nx": 200, "even_nx": 200,
-              "twin_axis_cases": 40, "bc_not-a-knot": 40, "bc_natural": 40, "bc_clamped": 40, "bc_periodic": 40, "bc_default": 40},
+              "twin_axis_cases": 40, "bc_not-a-knot": 40, "bc_natural": 40, "bc_clamped": 40, "bc_periodic": 40, "bc_default": 40,
+              "spec_name": 300, "spec_case": 100, "spec_class": 60, "spec_omitted": 30, "spec_none": 60, "method_spec_cases": 40,
+              "defaulted_method_bc_default": 8, "defaulted_method_bc_natural": 8, "defaulted_method_bc_clamped": 8,
+              "defaulted_method_bc_not-a-knot": 8, "defaulted_method_bc_periodic": 8, "spelling_agreement_checked": 250,
+              "mixdtype_cases": 35, "mixdtype_cspline": 25, "mixdtype_y_int": 15, "mixdtype_y_finer": 7, "mixdtype_y_coarser": 7},
     "thorough": {"big_stack_cases": 80, "method_trapz": 2000, "method_simpson": 2000, "method_cspline": 3000, "axis_notlast_negdim": 2000,
                  "axis_notlast_posdim": 2000, "rank1": 600, "rank4": 600, "keepdim_calls": 9000, "wrong_length_rejected": 9000,
                  "spline_mat_built": 3000, "simpson_weights_built": 2000, "trapz_weights_built": 2000, "odd_nx": 2000,
                  "even_nx": 2000, "twin_axis_cases": 400, "bc_not-a-knot": 400, "bc_natural": 400, "bc_clamped": 400,
-                 "bc_periodic": 400, "bc_default": 400},
+                 "bc_periodic": 400, "bc_default": 400,
+                 "spec_name": 3000, "spec_case": 1000, "spec_class": 600, "spec_omitted": 300, "spec_none": 600, "method_spec_cases": 240,
+                 "defaulted_method_bc_default": 80, "defaulted_method_bc_natural": 80, "defaulted_method_bc_clamped": 80,
+                 "defaulted_method_bc_not-a-knot": 80, "defaulted_method_bc_periodic": 80, "spelling_agreement_checked": 1500,
+                 "mixdtype_cases": 210, "mixdtype_cspline": 150, "mixdtype_y_int": 90, "mixdtype_y_finer": 42, "mixdtype_y_coarser": 42},
 }
 
 METHODS = ["trapz", "simpson", "cspline"]
@@ -68,6 +86,9 @@ def cases(seed, tier):
         d["twin"] = int(d["rank"] >= 2 and d["nx"] <= 8 and rng.random() < 0.3)
         d["dtype"] = rng.choice(["float64", "float64", "float64", "float32"])
         d["noncontig"] = int(rng.random() < 0.25)
+        # how the method is specified: a dimension of its own (separate stream, so that the other draws do not depend on it)
+        rs = random.Random(sub_seed(seed, "c15spec_r", i))
+        d["spec"] = "kw" if rs.random() < 0.4 else rs.choice(cx.spellings_for(d["method"])[1:])
         out.append(d)
     # exhaustive (rank, axis) table for every method / bc, odd and even nx
     k = 0
@@ -100,6 +121,8 @@ def cases(seed, tier):
                             "nx": rng.choice([17, 33, 40]), "grid": ir.GRID_KINDS[k % 4], "rank": rank, "ax": ax, "twin": 0, "dtype": "float64",
                             "noncontig": int(rng.random() < 0.3), "big": 1})
                 k += 1
+    out.extend(cx.spec_cases(seed, tier, sub_seed))
+    out.extend(cx.mix_cases(seed, tier, sub_seed))
     return out
 
 
@@ -150,6 +173,10 @@ def _grid_factor(method, st, periodic=False):
 
 
 def run_case(desc):
+    if desc["group"] == "method_spec":
+        return cx.run_spec_case(desc)
+    if desc["group"] == "mixdtype":
+        return cx.run_mixdtype_case(desc)
     import xitorch  # noqa: F401
     from xitorch.integrate import SQuad
     import xitorch._impls.integrate.samples_quad as sqmod
@@ -211,6 +238,9 @@ def run_case(desc):
     if twin_ax is not None:
         obs.count("twin_axis_cases")
     mtag = method if method != "cspline" else "cspline:%s" % bc
+    spec = desc.get("spec", "kw")
+    if spec != "kw":
+        mtag += "@" + spec                      # the way the method was written is part of the configuration class
     ntag = "n%d" % nx if nx <= 3 else "n4+"
 
     # ---- reach counters on the weight builders (restored in finally)
@@ -227,8 +257,11 @@ def run_case(desc):
     sqmod.get_simpson_weights = wrap("si")
     try:
         try:
-            sq = SQuad(x, method=method, **opts)
+            sq = cx.build(SQuad, sqmod, x, method, spec, opts)
         except Exception as e:
+            if spec in cx.CASE_SPELLINGS and isinstance(e, RuntimeError):
+                obs.count("case_spelling_refused")      # letter case is not promised by the documentation
+                return obs.result()
             obs.exc_violation("construct:%s:%s" % (mtag, ntag), e, nx=nx)
             obs.nontrivial = True
             return obs.result()
@@ -236,6 +269,7 @@ def run_case(desc):
         sqmod._get_spline_mat_inv = orig["spl"]
         sqmod.get_trapz_weights = orig["tr"]
         sqmod.get_simpson_weights = orig["si"]
+    cx.count_spelling(obs, method, spec, bc)
     obs.count("spline_mat_built", built["spl"])
     if method == "trapz":
         obs.count("trapz_weights_built", built["tr"])
